@@ -136,6 +136,8 @@ class Scalars(Harness):
                     if tier == 'quick' and op in '*/' and (a in ('text', 'datetime') or b in ('text', 'datetime')) \
                             and not (a in ('blank',) or b in ('blank',)):
                         continue
+                    if tier == 'quick' and op in '*/' and {a, b} == {'date', 'dectext'}:
+                        continue
                     out.append({'ta': a, 'tb': b, 'op': op})
         return out
 
